@@ -67,6 +67,18 @@ def generate(prop, seed, tier):
         if S.chance(0.12):
             ops.append({"op": "skew", "k": S.sub("sk", k)})
             continue
+        others = [j for j, o in enumerate(slots) if j != s and o["kind"] in KINDS]
+        if sl["kind"] in ("windmeier", "nonzero") and others and S.chance(0.25):
+            # the caller fits, then changes in place the entry the model filled into *his*
+            # fit-description list; afterwards a model built from a fresh description is fitted
+            ops.append({"op": "fit", "slot": s, "letter": S.pick(["A", "B", "C"]), "n": 800, "dseed": S.sub("fe", k), "fail_at": None})
+            ops.append({"op": "edit_fit_desc", "slot": s})
+            ops.append({"op": "fit", "slot": S.pick(others), "letter": S.pick(["A", "B", "C"]), "n": 800, "dseed": S.sub("fo", k), "fail_at": None})
+            continue
+        if sl["kind"] in KINDS and S.chance(0.1):
+            # keep a deep copy of this model aside; whatever happens to the original must not reach it
+            ops.append({"op": "shadow", "slot": s, "aseed": S.sub("sh", k)})
+            continue
         if sl["kind"] in KINDS and S.chance(0.22):
             o = {"op": "fit", "slot": s, "letter": S.pick(["A", "B", "C"]), "n": S.pick([800, 1200]), "dseed": S.sub("fd", k), "fail_at": S.pick([None, None, 0, 1, 2])}
             ops.append(o)
@@ -208,6 +220,8 @@ class Slot:
         self.base = getattr(self.model, "model", self.model)
         self.n_dim = self.base.n_dim
         self.ax = None
+        self.last_fit_desc = None  # the list the caller handed to the last fit (the model may have filled it)
+        self.shadow = None  # (deep copy, evaluation points, digest of its pdf at copy time)
 
 
 def _points(slot, rng, n):
@@ -400,8 +414,19 @@ def fit_data(slot, op):
     return models.dataset_for(slot.spec["kind"], op["letter"], op["n"], op["dseed"])
 
 
+def check_shadow(slot):
+    """pdf of the deep copy kept aside, digested: must stay what it was at copy time"""
+    cp, pts, ref = slot.shadow
+    try:
+        now = core.digest(np.asarray(cp.pdf(pts.copy())))
+    except Exception as e:  # noqa: BLE001
+        now = "EXC:" + type(e).__name__
+    return now == ref, ref, now
+
+
 def do_fit(slot, op):
     desc, fit_desc, sem, tr = models.predefined(slot.spec["kind"])
+    slot.last_fit_desc = fit_desc
     data = fit_data(slot, op)
     exc = None
     with seams.OptimiserShim(fail_at=[op["fail_at"]] if op.get("fail_at") is not None else None) as shim:
@@ -438,7 +463,12 @@ def execute_universe(scen, only_slot=None, run=None):
             if only_slot is not None and i != only_slot:
                 continue
             seams.pin_global(core.h64(scen["seed"], "create", i))
-            slots[i] = Slot(spec)
+            try:
+                slots[i] = Slot(spec)
+            except RuntimeError:
+                raise
+            except Exception as e:  # noqa: BLE001
+                raise RuntimeError(f"creation of slot {i} ({spec['kind']}) raised {type(e).__name__}: {e}")
         pins = {}
         fit_epoch = {i: 0 for i in slots}
         epoch_at = {}
@@ -460,6 +490,32 @@ def execute_universe(scen, only_slot=None, run=None):
             slot = slots[s]
             local = slot.local
             slot.local += 1
+            if op["op"] == "edit_fit_desc":
+                fd = slot.last_fit_desc
+                if isinstance(fd, list) and len(fd) > 1 and isinstance(fd[1], dict):
+                    fd[1]["method"] = "wlsq"
+                    fd[1]["weights"] = "quadratic"
+                    if checking:
+                        run.count("probe:caller-edited-filled-fit-description")
+                digests[k] = "edit"
+                if checking:
+                    run.event("edit_fit_desc", s, None)
+                continue
+            if op["op"] == "shadow":
+                import copy as _copy
+
+                rng_ = np.random.default_rng(op["aseed"])
+                pts = _points(slot, rng_, 4)
+                cp = _copy.deepcopy(slot.model)
+                try:
+                    ref = core.digest(np.asarray(cp.pdf(pts.copy())))
+                except Exception as e:  # noqa: BLE001
+                    ref = "EXC:" + type(e).__name__
+                slot.shadow = (cp, pts, ref)
+                digests[k] = ref
+                if checking:
+                    run.event("shadow", s, ref)
+                continue
             if op["op"] == "fit":
                 fit_epoch[s] += 1
                 seams.pin_global(_pin_for(scen, s, local))
@@ -493,6 +549,13 @@ def execute_universe(scen, only_slot=None, run=None):
                     if module_globals() != glob0:
                         run.violate("I2-module-globals-changed", "variable_transform", {"step": k})
                         return digests
+                    for j, other in slots.items():
+                        if other.shadow is not None:
+                            ok_, ref_, now_ = check_shadow(other)
+                            run.count("probe:deep-copy-checked-after-a-fit")
+                            if not ok_:
+                                run.violate("I2-fit-changes-a-deep-copy", f"{other.spec['kind']}" + ("" if j == s else "/of-another-model"), {"fitted_slot": s, "copy_of_slot": j, "pdf_digest_at_copy_time": ref_, "now": now_, "step": k})
+                                return digests
                 continue
             # ---- evaluation op, executed twice under the same pinned global-RNG state ----
             pin = _pin_for(scen, s, local)
@@ -614,20 +677,30 @@ def execute(prop, scen):
             if sh:
                 run.violate("I5-getter-calls-share-mutable-object", kind, {"shared_types": sorted(set(sh.values()))[:5], "count": len(sh)})
                 return run
+        # I4 reference runs first, each in a forked child: every slot's operations alone, starting from
+        # exactly the process state the interleaved run starts from (class attributes, module globals)
+        alone_by_slot = {}
         try:
+            for s in range(len(scen["slots"])):
+                if any(o.get("slot") == s for o in scen["ops"]):
+                    alone_by_slot[s] = core.run_forked(execute_universe, scen, s, None)
             full = execute_universe(scen, None, run)
         except RuntimeError as e:
             if "Failed to fit" in str(e) or "too few intervals" in str(e):
                 run.inconclusive = f"workload: model could not be fitted at creation ({str(e)[:60]})"
                 return run
-            raise
+            # A model built from a fresh description could not be created / fitted for a reason other than
+            # its data: on the unchanged tree this never happens; it does when something an earlier
+            # model (possibly of an earlier run in this process) did has leaked into shared state.
+            run.violate("I5-fresh-model-cannot-be-created", "creation", {"exc": str(e)[-400:]})
+            return run
         if run.violations:
             return run
         # I4: projection equivalence
         for s in range(len(scen["slots"])):
-            if not any(o.get("slot") == s for o in scen["ops"]):
+            if s not in alone_by_slot:
                 continue
-            alone = execute_universe(scen, s, None)
+            alone = alone_by_slot[s]
             for k, op in enumerate(scen["ops"]):
                 if op.get("slot") == s:
                     run.count("projection_comparisons")
@@ -695,5 +768,5 @@ def describe(prop):
             "the snapshot walks __dict__ of every object reachable from the model (partials, dicts, lists), floats by hex, arrays by digest; TransformedModel._sample is a cache allowed to go None -> array once",
             "unseeded operations may depend on the global RNG state only, which the simulator pins per step (slot-local), so repeatability and projection equivalence are decidable",
         ],
-        "probes": ["fit-between-evaluations", "evaluation-repeated-later"],
+        "probes": ["fit-between-evaluations", "evaluation-repeated-later", "caller-edited-filled-fit-description", "deep-copy-checked-after-a-fit"],
     }
